@@ -10,8 +10,10 @@
      setCollectionChain REPLACES the chain).  load runs in one registry + datastore transaction: dimension records with
      skip_existing (a different record already present is silently kept), _importDatasets per dataset type and run
      (same id + same definition = no-op, any other clash = Conflict), datastore ingest of ALL datasets of the file
-     (a dataset that already has a datastore record makes the INSERT fail with an IntegrityError -- after every file was
-     copied over the stored artifact, so the rollback deletes those artifacts), associate, certify.
+     (a dataset that already has a datastore record makes FileDatastore._finishIngest refuse the whole ingest with
+     ConflictingDefinitionError BEFORE any file is transferred -- /repo 2da36a1; the behaviour before that commit, INSERT
+     failing with an IntegrityError after every file was copied over the stored artifact so that the rollback deleted those
+     artifacts, is kept as the variant `fixed = false` of load_v / import_v / exim_v), associate, certify.
    * DirectButler.transfer_from: datasets without an artifact in the source are skipped; dataset types compared /
      registered outside the transaction; dimension records (skip_existing), run registration, _importDatasets per run
      and the datastore transfer (datasets already stored in the target are skipped) inside one transaction;
@@ -279,32 +281,37 @@ Definition lose (ids : list N) (st : list (N * sinfo)) : list (N * sinfo) :=
 Definition store_new (m : mode) (l : list (dset * N)) (t : state) : state :=
   with_stored t (stored t ++ map (fun p => (d_id (fst p), (Some (snd p), match m with Copy => true | Direct => false end))) l).
 
-Definition load (m : mode) (b : bundle) (t : state) : res * bool :=   (* bool: files were copied into place *)
+(* fixed = true: the code as it is (2da36a1); fixed = false: the code before that commit *)
+Definition load_v (fixed : bool) (m : mode) (b : bundle) (t : state) : res * bool :=   (* bool: files were copied into place *)
   let t1 := add_dims (b_dims b) t in
   match foldr import_one (map fst (b_dsets b)) t1 with
   | RErr e => (RErr e, false)
   | ROk t2 =>
-    if existsb (fun n => is_stored n t2) (bundle_ids b) then (RErr SqlError, true) else
+    if existsb (fun n => is_stored n t2) (bundle_ids b)
+    then (if fixed then (RErr Conflict, false) else (RErr SqlError, true)) else
     let t3 := store_new m (b_dsets b) t2 in
     (bind (foldr assoc_one (b_tags b) t3) (foldr certify_one (b_calibs b)), true)
   end.
+Definition load := load_v true.
 
-Definition import_ (m : mode) (b : bundle) (t : state) : state * outcome :=
+Definition import_v (fixed : bool) (m : mode) (b : bundle) (t : state) : state * outcome :=
   match register b t with
   | (t0, Some e) => (t0, Err e)
   | (t0, None) =>
-    match load m b t0 with
+    match load_v fixed m b t0 with
     | (ROk t', _) => (t', Ok)
     | (RErr e, copied) =>
       ((match m, copied with Copy, true => with_stored t0 (lose (bundle_ids b) (stored t0)) | _, _ => t0 end), Err e)
     end
   end.
+Definition import_ := import_v true.
 
-Definition exim (m : mode) (ids cs : list N) (src t : state) : state * outcome :=
+Definition exim_v (fixed : bool) (m : mode) (ids cs : list N) (src t : state) : state * outcome :=
   match export ids cs src with
   | XErr e => (t, Err e)
-  | XOk b => import_ m b t
+  | XOk b => import_v fixed m b t
   end.
+Definition exim := exim_v true.
 
 (* ------------------------------------------------------------------ transfer_from *)
 Definition chk_type (p : N * N) (t : state) : res :=
